@@ -834,6 +834,30 @@ class VarInliner:
     def _evaluated_first(self, stmt, v):
         """the single use of v in stmt is evaluated before any call of stmt completes (other than calls it is an
         argument of), and stmt is a simple statement or a hoistable header"""
+        if isinstance(stmt, ast.Assign) and len(stmt.targets) == 1 and isinstance(stmt.targets[0], ast.Subscript) \
+                and is_stable(stmt.value) and is_stable(stmt.targets[0].value) \
+                and not any(isinstance(x, ast.Name) and x.id == v for x in ast.walk(stmt.value)) \
+                and not any(isinstance(x, ast.Name) and x.id == v for x in ast.walk(stmt.targets[0].value)):
+            # `a[<use>] = c` with c and a free of calls: the subscript expression is the only thing with an effect
+            expr = stmt.targets[0].slice
+            uses = sum(1 for x in ast.walk(expr) if isinstance(x, ast.Name) and x.id == v)
+            if uses != 1:
+                return False
+            order = []
+
+            def walk2(n, ok):
+                if isinstance(n, _SCOPES):
+                    for c in ast.iter_child_nodes(n):
+                        walk2(c, False)
+                    return
+                for c in ast.iter_child_nodes(n):
+                    walk2(c, ok)
+                if isinstance(n, ast.Call):
+                    order.append(("call", ok))
+                if isinstance(n, ast.Name) and n.id == v:
+                    order.append(("use", ok))
+            walk2(expr, True)
+            return bool(order) and order[0] == ("use", True)
         if isinstance(stmt, (ast.Assign, ast.AugAssign, ast.AnnAssign, ast.Expr, ast.Return)):
             expr = stmt.value
         elif isinstance(stmt, ast.If):
